@@ -148,6 +148,16 @@ def build_parallel(variants):
     return res
 
 
+def die_with_parent():
+    """preexec_fn for every helper process: killed by the kernel when the process that started it dies (so a looping
+    harness, or a valgrind / Miri run of one, never outlives an orchestrator that is killed from outside)."""
+    try:
+        import ctypes
+        ctypes.CDLL("libc.so.6", use_errno=True).prctl(1, 9, 0, 0, 0)
+    except Exception:
+        pass
+
+
 # --------------------------------------------------------------------------- harness
 class HarnessDied(Exception):
     def __init__(self, rc, op, stderr=""):
